@@ -203,5 +203,23 @@ func SelfTest() error {
 	if key2, c, err := ParseKeyPackage(EncodeKeyPackage(long, ra)); err != nil || !bytes.Equal(key2, long) || !bytes.Equal(c, ra) {
 		return fail("SM9KeyPackage round trip")
 	}
+	// SEQUENCE headers (X.690 8.1.3, 10.1): short form, long forms, what DER forbids
+	for _, v := range []struct {
+		hex  string
+		span int64
+		ok   bool
+	}{
+		{"3000", 2, true}, {"3021d31e", 35, true}, {"307f", 129, true}, {"3080", 0, false}, {"30817f", 0, false},
+		{"308180", 131, true}, {"3081ff", 258, true}, {"308200ff", 0, false}, {"30820100", 260, true}, {"3082ffff", 65539, true},
+		{"308300ffff", 0, false}, {"3083010000", 65541, true}, {"308400ffffff", 0, false}, {"3084ffffffff", 4294967301, true},
+		{"30850100000000", 0, false}, {"3081", 0, false}, {"30", 0, false}, {"3100", 0, false}, {"0400", 0, false},
+	} {
+		if span, ok := SequenceSpan(unhex(v.hex)); ok != v.ok || span != v.span {
+			return fail("SequenceSpan(%s) = %d, %v", v.hex, span, ok)
+		}
+	}
+	if !IsOneSequence(DERSequence(long)) || IsOneSequence(append(DERSequence(long), 0)) || IsOneSequence(DERSequence(long)[:303]) || !IsOneSequence(unhex("3003aabbcc")) {
+		return fail("IsOneSequence")
+	}
 	return nil
 }
